@@ -64,6 +64,9 @@ class C05(Prop):
                     acts.append(['enq', 0, 'keepalive', 0, 3, False])
                 elif x < 0.53:
                     acts.append(['front', 0, 'keepalive', 0, 3, False])
+                elif x < 0.58:
+                    # the peer re-uses a stream id that is open: the library itself queues ERROR[REJECTED] on that stream
+                    acts.append(['peerdup', sid])
                 else:
                     acts.append(['release'])
             out.append({'F': F, 'lp': lp, 'acts': acts, 'drain': rng.random() < 0.7})
@@ -79,9 +82,17 @@ class C05(Prop):
         from rsocket import frame_builders as B
         from rsocket.frame import ErrorFrame, KeepAliveFrame
         from rsocket.error_codes import ErrorCode
+        from rsocket.request_handler import BaseRequestHandler
+        from rsocket.helpers import DefaultPublisherSubscription
+        from harness import engine
+
+        class Quiet(BaseRequestHandler):
+            async def request_stream(self, payload):
+                return DefaultPublisherSubscription()       # a publisher that never emits: the stream stays open
         t = simnet.ScriptedTransport(loop, gated=True, length_header=case['lp'])
-        server = RSocketServer(t, fragment_size_bytes=case['F'])
+        server = RSocketServer(t, fragment_size_bytes=case['F'], handler_factory=Quiet)
         await loop.settle()
+        opened = set()
         events = []       # model events
         sources = []      # (tag, sid, kind, k)
         seen = 0
@@ -94,7 +105,17 @@ class C05(Prop):
                 seen += 1
 
         for a in case['acts']:
-            if a[0] in ('enq', 'front'):
+            if a[0] == 'peerdup':
+                sid = a[1]
+                if sid not in opened:
+                    opened.add(sid)
+                    t.deliver(engine.build_frame({'ty': 'REQUEST_STREAM', 'sid': sid, 'n': 1, 'data': [1]}).serialize())
+                    await loop.settle()
+                t.deliver(engine.build_frame({'ty': 'REQUEST_STREAM', 'sid': sid, 'n': 1, 'data': [2]}).serialize())
+                tag = len(sources) + 1
+                sources.append({'tag': tag, 'sid': sid, 'kind': 'lib-error', 'k': 1, 'frame': None})
+                events.append('e%d:%d' % (sid, tag * 100))
+            elif a[0] in ('enq', 'front'):
                 _, sid, kind, md, d, cflag = a
                 tag = len(sources) + 1
                 if a[0] == 'front':
@@ -159,6 +180,12 @@ class C05(Prop):
         from rsocket.frame import PayloadFrame, ErrorFrame, CancelFrame, RequestNFrame, KeepAliveFrame
         for s in sources:
             f0 = s['frame']
+            if f0 is None:
+                # queued by the library itself: ERROR[REJECTED] for a request on an open stream id (the harness's own errors are APPLICATION_ERROR)
+                if isinstance(fr, ErrorFrame) and fr.stream_id == s['sid'] and int(fr.error_code) == 0x202 and not s.get('_used'):
+                    s['_used'] = True
+                    return s['tag']
+                continue
             if type(fr) is not type(f0) and not (isinstance(fr, PayloadFrame) and isinstance(f0, PayloadFrame)):
                 continue
             if fr.stream_id != s['sid']:
